@@ -100,7 +100,7 @@ func c10Events() []*c10Event {
 		}
 	}
 	// the `_` spelling stands for message in every builtin
-	srcs = append(srcs, "set_tag(_)", `set_tag(_, "v")`, "add_key(_, 7)", "add_key(_, nil)", "drop_key(_)", "rename(_, n1)", "rename(n1, _)", "rename(t1, _)", `cast(_, "int")`, "uppercase(_)", "set_measurement(_, true)")
+	srcs = append(srcs, "set_tag(_)", `set_tag(_, "v")`, "add_key(_, 7)", "add_key(_, nil)", "drop_key(_)", "rename(_, n1)", "rename(n1, _)", "rename(t1, _)", "rename(_, message)", "rename(message, _)", `cast(_, "int")`, "uppercase(_)", "set_measurement(_, true)")
 	srcs = append(srcs, `grok(message, "%{WORD:n1}")`, `grok(a, "%{INT:n1:int}")`, `grok(t1, "%{WORD:a} ?%{WORD:t1}?")`)
 	var out []*c10Event
 	for _, s := range srcs {
